@@ -11,8 +11,8 @@ rule of a predicate contributes to one signature, aggregation operators as docum
 A *clash* is a failed unification of two type constructors; it is *ground* when both
 sides are fully determined types (no type variable inside).  Clashes carry a class:
   plain        two different ground types met
-  rec_nolit    the two types are records that differ only in the type of a field and no
-               record literal takes part (both come from predicate signatures)
+  rec_field    the two types are records with the same fields that differ in the type of
+               a field
   rec_arg_lit  a record literal written directly as a call argument has other fields
                than the record type that position has
   rec_head_lit the same for a record literal written directly as a head field value
@@ -261,8 +261,7 @@ class Checker(object):
                 ok = False
         if not ok:
             del self.clashes[n:]
-            lit = a.lit or b.lit
-            self.clash(a, b, 'plain' if lit else 'rec_nolit')
+            self.clash(a, b, 'rec_field')
             return False
         merged = dict(b.fields)
         merged.update(a.fields)
